@@ -32,10 +32,20 @@ Print Assumptions PIPE_prev_ids_panic_iff.
    in the namespace (RenameProofs.wf_node); per layer: no `namespace:` directive, no custom labels[].fields,
    generators that create with a good name, comma-free namePrefix / nameSuffix.
    Partial: the top-only steps (hash, name references) and layers with a namespace directive are not covered;
-   the remaining panic sites of the model are the name-reference setter on an empty candidate name and
-   rb_subject_namespaces on malformed RoleBinding subjects (the latter was repaired in /repo by bd5a4cf; the
-   C03 slice still models the old behaviour). *)
+   the remaining panic sites of the model are the name-reference setter on an empty candidate name
+   (FieldSetter with a nil Value) and IgnoreLocal's Factory.FromResourceSlice on an id collision among the kept
+   resources (PIPE_panic_hash_clash_witness; the known C12 finding panic:...FromResourceSlice). *)
 Theorem PIPE_accumulate_no_panic_partial :
   forall nonstr t, tree_wf t -> accumulate nonstr t <> Panic.
 Proof. exact accumulate_no_panic. Qed.
 Print Assumptions PIPE_accumulate_no_panic_partial.
+
+(* the model also HAS the FromResourceSlice panic of IgnoreLocal: a ConfigMap read from a file whose name equals
+   the hash-suffixed name of a generated one (confirmed on krusty.Run: corpus/PIPE/case_hashclash.json) *)
+Theorem PIPE_panic_hash_clash_witness :
+  build (fun _ => false) PSortNone
+        (PDir "t" (mkPDirs "" "" "" [] [] [] [mkPGen "a" "" "" ["k=v"] "" false [] [] false] [])
+           [PFile [Map [("apiVersion", Scalar TStr SPlain "v1"); ("kind", Scalar TStr SPlain "ConfigMap");
+                        ("metadata", Map [("name", Scalar TStr SPlain "a-bdg947hgcc")])]]]) = Panic.
+Proof. exact build_panic_hash_clash. Qed.
+Print Assumptions PIPE_panic_hash_clash_witness.
